@@ -118,6 +118,23 @@ CLAIMS = {
                 "create_test_suite/TestSuiteLocalSearch.local_search are assumed contracts; 'covers when re-executed' "
                 "relies on C12's determinism assumption; MIOArchive.update and _GoalsManager.update are not yet under contract.",
     },
+    "C04": {
+        "category": "proof",
+        "text": "Unbounded proof over IEEE-754 doubles (z3 FP theory, cvc5 for real-to-float rounding) and mathematical ints "
+                "of the real distance functions under every pairing of int/bool/float operands (and str pairs, int-in-list): "
+                "_numeric_gap is positive, not NaN and never raises (no OverflowError); _eq/_neq/_lt/_le/_in/_nin return a "
+                "non-negative non-NaN distance that is 0.0 exactly when Python's own operator holds (int-float comparisons "
+                "exact, NaN unordered); for values of unknown type every distance is >= 0 and not NaN; _opposite is 0.0 "
+                "exactly when the evaluated comparison's distance is positive; each recorder (compare, bool, in-presence, "
+                "exception match) hands _update_metrics two non-negative non-NaN distances exactly one of which is 0.0, so "
+                "the tracer's own assertions never fire inside the code under test.",
+        "note": "assumed: the three string helpers of type_utils (string_distance, string_lt/le_distance) - checked only by "
+                "the bounded part (all pairs of strings/bytes of length <= 2 or 3 over a 4-6 letter alphabet), never counted "
+                "as proved; values of the module under test are opaque (unknown results, may raise anything), so 'the zero "
+                "distance is the outcome Python produces' is proved for the typed variants only; reflected operators "
+                "(v2 < v1 for v1 > v2) are taken to agree with Python's own; Decimal/Fraction/complex operands are covered "
+                "only as opaque values; temporarily_disable is C05's, update_predicate_distances C11's.",
+    },
     "C12": {
         "category": "proof",
         "text": "Unbounded proof, per function, of the cache invariant 'changed flag up, or every cached value equals F/COV of "
